@@ -230,8 +230,28 @@ fn opts_to_point(o: &AOpts) -> Vec<usize> {
     vec![o.framing as usize, o.codec as usize, o.null_second as usize, BATCHES.iter().position(|b| *b == o.batch).unwrap(), o.utf8_view as usize, o.strict as usize, o.layout as usize, !o.nullable as usize]
 }
 /// block compression only exists in object container files; union order only matters for nullable columns
+/// `strict_mode` documents that `[T, "null"]` unions are rejected: that combination is not constructed
 pub fn valid_point(o: &AOpts) -> bool {
-    o.codec == 0 || o.framing == 0
+    (o.codec == 0 || o.framing == 0) && !(o.strict && o.null_second)
+}
+
+/// `with_utf8_view` loads *textual* Avro fields as string views; a `uuid`-annotated string then comes
+/// back as its text instead of FixedSizeBinary(16). Not claimed either way: not constructed.
+fn col_allowed(c: &ACol, o: &AOpts) -> bool {
+    !(o.utf8_view && c.kind == Kind::Uuid)
+}
+
+fn has_null_string(dt: &DataType, v: &V) -> bool {
+    match (dt, v) {
+        (DataType::Utf8 | DataType::LargeUtf8 | DataType::Utf8View, V::Null) => true,
+        (DataType::List(f) | DataType::LargeList(f), V::L(items)) => items.iter().any(|x| has_null_string(f.data_type(), x)),
+        (DataType::Struct(fs), V::St(items)) => fs.iter().zip(items).any(|(f, x)| has_null_string(f.data_type(), x)),
+        (DataType::Map(e, _), V::M(items)) => {
+            let DataType::Struct(kv) = e.data_type() else { return false };
+            items.iter().any(|(_, x)| has_null_string(kv[1].data_type(), x))
+        }
+        _ => false,
+    }
 }
 
 fn arrow_codec(c: u8) -> Option<CompressionCodec> {
@@ -417,6 +437,105 @@ fn av_to_v(v: &AV) -> Result<V, String> {
     })
 }
 
+/// compares apache-avro values through the logical model (floats by bit pattern)
+fn av_same(a: &[AV], b: &[AV]) -> bool {
+    a.len() == b.len() && a.iter().zip(b).all(|(x, y)| matches!((av_to_v(x), av_to_v(y)), (Ok(p), Ok(q)) if p == q))
+}
+
+// ---- Parsing Canonical Form + CRC-64-AVRO written from the Avro 1.11 specification
+// ("Transforming into Parsing Canonical Form" and "Schema Fingerprints"); used as the independent
+// oracle for single-object headers. (apache-avro 0.22 keeps `{"type":"int"}` instead of `"int"` for a
+// stripped logical type, so its fingerprint deviates from the specification for such schemas; it is
+// cross-checked only on schemas without logical types.)
+fn pcf(v: &serde_json::Value, out: &mut String) {
+    use serde_json::Value as S;
+    match v {
+        S::String(s) => {
+            out.push_str(&serde_json::to_string(s).unwrap());
+        }
+        S::Array(a) => {
+            out.push('[');
+            for (i, x) in a.iter().enumerate() {
+                if i > 0 {
+                    out.push(',');
+                }
+                pcf(x, out);
+            }
+            out.push(']');
+        }
+        S::Object(o) => {
+            let keep = ["name", "type", "fields", "symbols", "items", "values", "size"];
+            let present: Vec<&str> = keep.iter().copied().filter(|k| o.contains_key(*k)).collect();
+            if present == ["type"] {
+                // [PRIMITIVES] / nested type object without other parsing-relevant attributes
+                return pcf(&o["type"], out);
+            }
+            out.push('{');
+            for (i, k) in present.iter().enumerate() {
+                if i > 0 {
+                    out.push(',');
+                }
+                out.push_str(&format!("\"{k}\":"));
+                match (*k, &o[*k]) {
+                    ("size", S::Number(n)) => out.push_str(&n.to_string()),
+                    ("size", S::String(n)) => out.push_str(n.trim_start_matches('0')),
+                    ("fields", S::Array(fs)) => {
+                        out.push('[');
+                        for (j, f) in fs.iter().enumerate() {
+                            if j > 0 {
+                                out.push(',');
+                            }
+                            // a field keeps name and type only
+                            out.push_str(&format!("{{\"name\":{},\"type\":", serde_json::to_string(&f["name"]).unwrap()));
+                            pcf(&f["type"], out);
+                            out.push('}');
+                        }
+                        out.push(']');
+                    }
+                    (_, x) => pcf(x, out),
+                }
+            }
+            out.push('}');
+        }
+        other => out.push_str(&other.to_string()),
+    }
+}
+
+fn crc64_avro(data: &[u8]) -> u64 {
+    const EMPTY: u64 = 0xc15d213aa4d7a795;
+    let mut table = [0u64; 256];
+    for (i, t) in table.iter_mut().enumerate() {
+        let mut fp = i as u64;
+        for _ in 0..8 {
+            fp = (fp >> 1) ^ (EMPTY & (0u64.wrapping_sub(fp & 1)));
+        }
+        *t = fp;
+    }
+    let mut fp = EMPTY;
+    for b in data {
+        fp = (fp >> 8) ^ table[((fp ^ *b as u64) & 0xff) as usize];
+    }
+    fp
+}
+
+/// C3 01 + little-endian CRC-64-AVRO of the parsing canonical form
+fn soe_header(schema_json: &str) -> Result<Vec<u8>, String> {
+    let v: serde_json::Value = serde_json::from_str(schema_json).map_err(|e| format!("schema json: {e}"))?;
+    let mut canon = String::new();
+    pcf(&v, &mut canon);
+    let fp = crc64_avro(canon.as_bytes());
+    if !schema_json.contains("logicalType") {
+        let s = apache_avro::Schema::parse_str(schema_json).map_err(|e| format!("apache-avro rejects {schema_json}: {e}"))?;
+        let theirs = s.fingerprint::<apache_avro::rabin::Rabin>().bytes;
+        if theirs != fp.to_le_bytes() {
+            return Err(format!("HARNESS: own canonical form {canon} / fingerprint disagrees with apache-avro ({})", s.canonical_form()));
+        }
+    }
+    let mut h = vec![0xC3, 0x01];
+    h.extend(fp.to_le_bytes());
+    Ok(h)
+}
+
 /// model value as apache-avro sees it: UTF-8 view / large variants are the same logical value; the
 /// apache value of a uuid column is the 16 bytes
 fn expect_for_apache(v: &V) -> V {
@@ -571,18 +690,18 @@ pub fn run_case(c: &Case) -> Result<String, Fail> {
             0 => {
                 let reader = apache_avro::Reader::new(&bytes[..]).map_err(|e| format!("apache Reader::new: {e}"))?;
                 let ocf: Vec<AV> = reader.collect::<Result<Vec<_>, _>>().map_err(|e| format!("apache Reader: {e}"))?;
-                if ocf != vals {
+                if !av_same(&ocf, &vals) {
                     return Err(format!("OCF rows {ocf:?} differ from raw bodies {vals:?}"));
                 }
             }
             1 => {
-                let sor = apache_avro::GenericSingleObjectReader::builder().schema(aschema.clone()).build().map_err(|e| format!("single object reader: {e}"))?;
+                let sor = apache_avro::GenericSingleObjectReader::builder().schema(aschema.clone()).header(soe_header(&avro_json)?).build().map_err(|e| format!("single object reader: {e}"))?;
                 let mut rd = &bytes[..];
                 let mut soe = vec![];
                 while !rd.is_empty() {
                     soe.push(sor.read_value(&mut rd).map_err(|e| format!("single-object frame rejected by apache-avro: {e}; bytes={}", hexs(&bytes)))?);
                 }
-                if soe != vals {
+                if !av_same(&soe, &vals) {
                     return Err(format!("single-object rows {soe:?} differ from raw bodies {vals:?}"));
                 }
             }
@@ -599,7 +718,7 @@ pub fn run_case(c: &Case) -> Result<String, Fail> {
                     let v = apache_avro::from_avro_datum(&aschema, &mut rd, None).map_err(|e| format!("from_avro_datum (confluent): {e}"))?;
                     got.push(v);
                 }
-                if got != vals {
+                if !av_same(&got, &vals) {
                     return Err(format!("Confluent rows {got:?} differ from raw bodies {vals:?}"));
                 }
             }
@@ -799,13 +918,11 @@ pub fn run_case_foreign(c: &Case) -> Result<String, Fail> {
                 w.into_inner().map_err(|e| e.to_string())
             }
             f => {
-                use apache_avro::rabin::Rabin;
-                let fp = aschema.fingerprint::<Rabin>().bytes;
+                let header = soe_header(&sj)?;
                 let mut out = vec![];
                 for r in rows {
                     if f == 1 {
-                        out.extend([0xC3, 0x01]);
-                        out.extend(&fp);
+                        out.extend(&header);
                     } else {
                         out.push(0);
                         out.extend(42u32.to_be_bytes());
@@ -919,6 +1036,9 @@ pub fn build_blocks(ctx: &Ctx) -> Vec<Block> {
         }
         for (gi, grid) in [&same, &widened].iter().enumerate() {
             for col in grid.iter() {
+                if !col_allowed(col, &o) {
+                    continue;
+                }
                 let alpha = Arc::new(col_alpha(col, &o));
                 if alpha.is_empty() {
                     continue;
@@ -1011,7 +1131,7 @@ fn run_any(c: &Case, foreign: bool) -> Result<String, Fail> {
 
 pub fn shrink(c: &Case, foreign: bool) -> (Case, Fail) {
     let fails = |c: &Case| -> Option<Fail> {
-        if !valid_point(&c.opts) {
+        if !valid_point(&c.opts) || c.cols.iter().any(|col| !col_allowed(col, &c.opts)) {
             return None;
         }
         for (i, col) in c.cells.iter().enumerate() {
@@ -1076,7 +1196,32 @@ pub fn shrink(c: &Case, foreign: bool) -> (Case, Fail) {
     (cur, last)
 }
 
+/// Triaged root causes (one semantic fingerprint each), decided on the case itself.
+pub fn known_root_cause(c: &Case, foreign: bool) -> Option<&'static str> {
+    let nrows = c.cells.first().map(|x| x.len()).unwrap_or(0);
+    if !foreign && c.cols.iter().any(|col| col.dt == DataType::Null) {
+        // Field(Null, nullable) -> ["null","null"]: the Avro specification forbids duplicate union branches
+        return Some("c17:avro:writer:null-typed-field-written-as-union-null-null");
+    }
+    if !foreign && c.opts.framing == 0 && c.opts.null_second && c.cols.iter().any(|col| col_nullable(col, &c.opts)) {
+        // the OCF header advertises a schema regenerated from the Arrow fields although the encoder
+        // follows the `avro.schema` metadata: header and body disagree
+        return Some("c17:avro:writer:ocf-header-ignores-avro.schema-metadata-used-by-encoder");
+    }
+    if c.opts.utf8_view && c.cols.iter().zip(&c.cells).any(|(col, cells)| col.kind == Kind::Plain && cells.iter().any(|v| has_null_string(&col.dt, v))) {
+        // the StringView flush path rebuilds the array from `""` placeholders and forgets the validity
+        return Some("c17:avro:reader:utf8_view-replaces-null-strings-by-empty-strings");
+    }
+    if foreign && c.opts.framing == 0 && nrows > 0 && c.cols.iter().all(|col| col.dt == DataType::Null) {
+        return Some("c17:avro:reader:ocf-block-of-zero-byte-records-yields-no-rows");
+    }
+    None
+}
+
 pub fn fingerprint(min: &Case, f: &Fail, foreign: bool) -> String {
+    if let Some(k) = known_root_cause(min, foreign) {
+        return k.into();
+    }
     let p = opts_to_point(&min.opts);
     let devs: Vec<String> = p.iter().enumerate().filter(|(_, v)| **v != 0).map(|(d, _)| DIM_NAMES[d].to_string()).collect();
     let col = f.col.unwrap_or(0).min(min.cols.len().saturating_sub(1));
@@ -1132,6 +1277,10 @@ pub fn run(ctx: &Ctx, order_base: u64) -> Stats {
         match r {
             Ok(class) => st.outcome(&class),
             Err(f) if f.stage == "harness" => st.violate(order_base + idx, format!("c17:avro:HARNESS:{}", f.msg.chars().take(40).collect::<String>()), f.msg.clone(), || case_json("avro", idx, tier, &c)),
+            Err(f) if known_root_cause(&c, b.foreign).is_some() => {
+                st.outcome(&format!("avro:violation:{}", f.stage));
+                st.violate(order_base + idx, known_root_cause(&c, b.foreign).unwrap(), format!("{} | types={:?} columns={:?} options={:?}", f.msg, c.cols.iter().map(|t| t.dt.to_string()).collect::<Vec<_>>(), c.cells.iter().map(|c| show_col(c)).collect::<Vec<_>>(), c.opts), || case_json("avro", idx, tier, &c));
+            }
             Err(f) => {
                 let (min, mf) = shrink(&c, b.foreign);
                 let fp = if mf.stage == "nondeterministic" { "c17:avro:NONDETERMINISTIC".to_string() } else { fingerprint(&min, &mf, b.foreign) };
